@@ -797,10 +797,11 @@ def oracle_outcome(ck, kind, op, script, out, invs, what, replay, after_gone=Fal
 
 def wrong_data_counts(invs):
     """NDEF data that differs from the tag content is a failure when it was read in this operation (not handed out from
-    the cache) - except when the second SECTOR SELECT frame was lost: the tag acknowledges that frame by silence, a lost
-    frame cannot be told from an acknowledged one and the following READs are answered from the old sector (inherent)"""
+    the cache) - except when the second SECTOR SELECT frame was lost and the reader saw a timeout: the tag acknowledges that
+    frame by silence, a lost frame cannot be told from an acknowledged one and the following READs are answered from the
+    old sector (inherent in the Type 2 Tag protocol)"""
     ex = [e for inv in invs for e in inv if e[0] not in "!?"]
-    return bool(ex) and not any(e[0] == "s2" and e[1] in "txpoc" for e in ex)
+    return bool(ex) and not any(e[0] == "s2" and e[1] == "t" for e in ex)
 
 
 def oracle_calls(ck, kind, op, invs, raws, nret, what, replay):
